@@ -6,7 +6,7 @@
 //   15    SAFETY   the rest of the input split at NUL bytes (<= 12 arguments of <= 40 bytes): libFuzzer + dictionary friendly.
 // Oracle: ASan/UBSan on exact-size argv buffers, watchdog; parse()==false -> through the runner: usage/help printed and
 //         no probe test runs; parse()==true -> every getter callable; MEANING: getters == expected configuration;
-//         both: a 12-test probe registry driven through CommandLineTestRunner executes exactly the tests that the C02
+//         both: a 16-test probe registry driven through CommandLineTestRunner executes exactly the tests that the C02
 //         selection model picks for the filters, repeat times, reversed / shuffled / in separate-process mode as configured.
 #include "common.h"
 #include "CppUTest/CommandLineArguments.h"
@@ -44,12 +44,14 @@ bool accepted_by_list(const std::vector<Flt>& fs, const std::string& s) { if (fs
 
 // ---------------------------------------------------------------- probe registry
 struct Probe { const char* group; const char* name; bool ignored; };
-const Probe PROBES[12] = {
+const Probe PROBES[16] = {
     {"Alpha", "one", false}, {"Alpha", "two", false}, {"AlphaBeta", "one", false}, {"Beta", "onetwo", true},
     {"beta", "One", false},  {"G1", "t", false},      {"G1", "tt", false},         {"G_2", "t_1", true},
     {"x", "a", false},       {"xx", "a", false},      {"Alpha", "three", false},   {"Z9", "one", false},
+    // names over a 2-3 letter alphabet with repeated prefixes: an occurrence of a filter value may follow an overlapping false start
+    {"aaab", "packet0001", false}, {"ababac", "packet1001", false}, {"aabaabaaab", "abababb", false}, {"abcabcabd", "aabaaab", true},
 };
-const size_t NP = 12;
+const size_t NP = 16;
 int g_exec[NP]; std::vector<int> g_exec_order;
 int g_sep_calls;
 
@@ -148,16 +150,30 @@ bool read_config(const CommandLineArguments& a, Config& c, std::string& err) {
 }
 
 // ---------------------------------------------------------------- MEANING: option grammar from help()/usage()
+// class counter only: would a substring search that never goes back into consumed text miss this occurrence?
+bool needs_backtracking(const std::string& t, const std::string& p) {
+    if (p.empty() || t.find(p) == std::string::npos) return false;
+    size_t m = 0;
+    for (char c : t) { if (c != p[m]) m = 0; if (c == p[m] && ++m == p.size()) return false; }
+    return true;
+}
 const char IDCH[] = "ABCDEFGHIJKLMNOPQRSTUVWXYZabcdefghijklmnopqrstuvwxyz0123456789_";
 std::string ident(Reader& r, bool group) {
     const Probe& p = PROBES[r.below((uint32_t)NP)];
     std::string src = group ? p.group : p.name;
-    switch (r.below(4)) {
+    switch (r.below(7)) {
     default:
     case 0: return src;
     case 1: { size_t pos = r.below((uint32_t)src.size()); size_t len = 1 + r.below(3); return src.substr(pos, len); }
     case 2: { std::string s = r.str(2, "aAt1_"); return s + "a"; }
     case 3: { size_t len = 1 + r.below(8); std::string s; for (size_t i = 0; i < len; i++) s.push_back(IDCH[r.below(sizeof IDCH - 1)]); return s; }
+    case 4: { size_t pos = r.below((uint32_t)src.size()); size_t len = 2 + r.below(5); return src.substr(pos, len); }   // longer substring
+    case 5: {   // a substring whose occurrence follows an overlapping false start ("aab" out of "aaab", "001" out of "packet0001")
+        const Probe& op = PROBES[12 + r.below(4)]; src = group ? op.group : op.name;   // the probes with repeated prefixes
+        size_t pos = r.below((uint32_t)src.size());
+        for (size_t q = 0; q < src.size(); q++) for (size_t l = 2; l <= 6; l++) { size_t c = (pos + q) % src.size(); if (c + l <= src.size() && needs_backtracking(src, src.substr(c, l))) return src.substr(c, l); }
+        return src.substr(pos, 2); }
+    case 6: { std::string s = r.str(4, "ab01"); return s + (r.below(2) ? "b" : "1"); }                                   // short needle over the repeat alphabet
     }
 }
 size_t number(Reader& r) {   // 1..99999 (A.5)
@@ -257,7 +273,7 @@ std::string safety_tail(Reader& r) {
     case 4: { static const char a[] = "aA.,() 0123456789-+\t"; return r.str(12, a, sizeof a - 1); }
     case 5: return r.bytes(20);
     case 6: return r.str(14, "0123456789");
-    case 7: { static const char* t[] = {",", ")", ", ", "(", ",)", "a,", "a)", ".", "..", "a.", ".a", "a.b.c", " ", "junit", "normal", "-1", "+5", "0", "00", "4294967296"}; return t[r.below(20)]; }
+    case 7: { static const char* t[] = {",", ")", ", ", "(", ",)", "a,", "a)", ".", "..", "a.", ".a", "a.b.c", " ", "junit", "normal", "-1", "+5", "0", "00", "4294967296", "aab", "001", "abac", "abab"}; return t[r.below(24)]; }
     }
 }
 std::vector<std::string> gen_safety_structured(Reader& r) {
@@ -472,6 +488,12 @@ int meaning_case(Reader& r, bool& nontrivial, std::string& desc) {
         }
         if (differs) { verif::cls("observation:single-xt-per-test-reading-differs"); if (verif::g_counting) verif::observe("single exclude pair option: per-test reading of the help differs from the two-list configuration, e.g. " + desc); }
         else verif::cls("observation:single-xt-readings-agree");
+    }
+    if (!help) {
+        bool nb = false;
+        for (auto& f : want.gf) if (!f.strict) for (size_t i = 0; i < NP; i++) if (needs_backtracking(PROBES[i].group, f.text)) nb = true;
+        for (auto& f : want.nf) if (!f.strict) for (size_t i = 0; i < NP; i++) if (needs_backtracking(PROBES[i].name, f.text)) nb = true;
+        if (nb) verif::cls("meaning:substring-occurrence-after-overlapping-false-start");
     }
     if (help || want.repeat <= 4) { verif::cls("runner:driven"); return run_through_runner(argv, help, help, want, desc); }
     verif::cls("runner:skipped-large-repeat");
